@@ -724,6 +724,12 @@ func (g *graph) compile(ctx context.Context, opt *graphCompileOptions) (*composa
 			preProcessor:  node.nodeInfo.preProcessor,
 			postProcessor: node.nodeInfo.postProcessor,
 		}
+		if node.executorMeta.component == ComponentOfPassthrough {
+			// the state handlers of a pass-through are typed any: in streaming execution their output has to be
+			// given the node's inferred type again
+			chCall.preProcessor = retypeStreamOutput(chCall.preProcessor, r.inputConverter)
+			chCall.postProcessor = retypeStreamOutput(chCall.postProcessor, r.outputConverter)
+		}
 
 		branches := g.branches[name]
 		if len(branches) > 0 {
@@ -1034,6 +1040,24 @@ func transferTask(script [][]string, invertedEdges map[string][]string) [][]stri
 	}
 
 	return script
+}
+
+// retypeStreamOutput wraps a processor so that the stream it returns is converted by conv (a run-time checked
+// conversion to the node's type); values (Invoke) pass unchanged.
+func retypeStreamOutput(p *composableRunnable, conv handlerPair) *composableRunnable {
+	if p == nil || conv.transform == nil {
+		return p
+	}
+	wrapper := *p
+	t := p.t
+	wrapper.t = func(ctx context.Context, input streamReader, opts ...any) (streamReader, error) {
+		out, err := t(ctx, input, opts...)
+		if err != nil {
+			return nil, err
+		}
+		return conv.transform(out), nil
+	}
+	return &wrapper
 }
 
 func validateDAG(chanSubscribeTo map[string]*chanCall, controlPredecessors map[string][]string) error {
